@@ -229,6 +229,9 @@ pub fn run_crash_case(case: &SqlReplay, opts: &CrashOpts) -> CrashRun {
         let r = sim.step(i, ev);
         tap::mark(&format!("a {i}"));
         states.push(sim.model.committed_state());
+        if sim.halted {
+            break;
+        }
         if let Err(v) = r {
             // the history itself misbehaved before any crash: that is E1's business; stop here
             live_violation = Some(v);
